@@ -1,0 +1,174 @@
+//go:build verif
+// +build verif
+
+package tars
+
+import (
+	"math/big"
+	"sync/atomic"
+
+	"github.com/TarsCloud/TarsGo/tars/protocol"
+	"github.com/TarsCloud/TarsGo/tars/protocol/res/basef"
+	"github.com/TarsCloud/TarsGo/tars/selector/consistenthash"
+	"github.com/TarsCloud/TarsGo/tars/selector/modhash"
+	"github.com/TarsCloud/TarsGo/tars/selector/roundrobin"
+	"github.com/TarsCloud/TarsGo/tars/util/endpoint"
+)
+
+// Verification hooks for the failover logic (build tag verif only): read accessors on AdapterProxy and
+// endpointManager, direct entry points to the unexported steps (accounting, checkStatus, doFresh,
+// reset+addAliveEp exactly as doInvoke's goroutine runs them) and a clock shift that moves the three health
+// timestamps into the past. No behaviour of the package changes.
+
+// VerifC15Consts are the health thresholds as the compiler sees them.
+type VerifC15Consts struct {
+	FainN           int32
+	FailInterval    int64
+	CheckTime       int64
+	OverN           int32
+	FailRatioNum    string // failRatio (float32) as an exact fraction
+	FailRatioDen    string
+	TryTimeInterval int64
+}
+
+func VerifC15GetConsts() VerifC15Consts {
+	r := new(big.Rat)
+	r.SetFloat64(float64(failRatio))
+	return VerifC15Consts{FainN: fainN, FailInterval: failInterval, CheckTime: checkTime, OverN: overN,
+		FailRatioNum: r.Num().String(), FailRatioDen: r.Denom().String(), TryTimeInterval: tryTimeInterval}
+}
+
+// VerifC15Health is a copy of the health record of an AdapterProxy.
+type VerifC15Health struct {
+	Host            string
+	Port            int32
+	Status          bool
+	Closed          bool
+	FailCount       int32
+	LastFailCount   int32
+	SendCount       int32
+	LastSuccessTime int64
+	LastBlockTime   int64
+	LastCheckTime   int64
+}
+
+func (c *AdapterProxy) VerifC15Health() VerifC15Health {
+	return VerifC15Health{Host: c.point.Host, Port: c.point.Port, Status: c.status, Closed: c.closed,
+		FailCount: atomic.LoadInt32(&c.failCount), LastFailCount: atomic.LoadInt32(&c.lastFailCount),
+		SendCount:       atomic.LoadInt32(&c.sendCount),
+		LastSuccessTime: atomic.LoadInt64(&c.lastSuccessTime), LastBlockTime: atomic.LoadInt64(&c.lastBlockTime),
+		LastCheckTime: atomic.LoadInt64(&c.lastCheckTime)}
+}
+
+func (c *AdapterProxy) VerifC15SendAdd()    { c.sendAdd() }
+func (c *AdapterProxy) VerifC15SuccessAdd() { c.successAdd() }
+func (c *AdapterProxy) VerifC15FailAdd()    { c.failAdd() }
+
+// VerifC15DropConn closes the transport connection (as a peer reset would), so that the next ReConnect dials.
+func (c *AdapterProxy) VerifC15DropConn() { c.tarsClient.Close() }
+
+// VerifC15Shift moves the three health timestamps d seconds into the past: d seconds have elapsed.
+func (c *AdapterProxy) VerifC15Shift(d int64) {
+	atomic.AddInt64(&c.lastSuccessTime, -d)
+	atomic.AddInt64(&c.lastBlockTime, -d)
+	atomic.AddInt64(&c.lastCheckTime, -d)
+}
+
+// VerifC15Mgr wraps a real endpointManager that is not registered with the global manager
+// (no periodic goroutine touches it).
+type VerifC15Mgr struct{ e *endpointManager }
+
+func VerifC15NewManager(objName string, comm *Communicator) *VerifC15Mgr {
+	return &VerifC15Mgr{e: newEndpointManager(objName, comm)}
+}
+
+// Manager returns the wrapped manager as the interface ServantProxy uses.
+func (m *VerifC15Mgr) Manager() EndpointManager { return m.e }
+
+// VerifC15NewServant is newServantProxy with the given (unregistered) manager instead of GetManager's,
+// so that real calls (TarsInvoke -> doInvoke) run against a manager no periodic goroutine touches.
+func VerifC15NewServant(comm *Communicator, objName string, m *VerifC15Mgr) *ServantProxy {
+	return &ServantProxy{
+		comm:    comm,
+		proto:   &protocol.TarsProtocol{},
+		timeout: comm.Client.AsyncInvokeTimeout,
+		version: basef.TARSVERSION,
+		name:    objName,
+		manager: m.e,
+	}
+}
+
+func (m *VerifC15Mgr) CheckStatus()   { m.e.checkStatus() }
+func (m *VerifC15Mgr) Refresh() error { return m.e.doFresh() }
+
+// Select is SelectAdapterProxy on a message with the given hash settings.
+func (m *VerifC15Mgr) Select(isHash bool, ht HashType, code uint32) (*AdapterProxy, bool) {
+	msg := &Message{}
+	if isHash {
+		msg.SetHash(code, ht)
+	}
+	return m.e.SelectAdapterProxy(msg)
+}
+
+// Reinstate runs the body of the goroutine doInvoke starts after an answered probe.
+func (m *VerifC15Mgr) Reinstate(adp *AdapterProxy) {
+	adp.reset()
+	ep := endpoint.Tars2endpoint(*adp.point)
+	m.e.addAliveEp(ep)
+}
+
+// ShiftClock lets d seconds elapse for the given adapters (all that were ever handed out).
+func (m *VerifC15Mgr) ShiftClock(d int64, adps ...*AdapterProxy) {
+	for _, a := range adps {
+		a.VerifC15Shift(d)
+	}
+}
+
+func (m *VerifC15Mgr) ProbeQueueLen() int { return len(m.e.checkAdapter) }
+
+// ProbeSet lists the hosts in checkAdapterList.
+func (m *VerifC15Mgr) ProbeSet() []string {
+	var out []string
+	m.e.checkAdapterList.Range(func(k, v interface{}) bool {
+		out = append(out, v.(*AdapterProxy).point.Host)
+		return true
+	})
+	return out
+}
+
+// Registry lists the hosts of activeEpf in order.
+func (m *VerifC15Mgr) Registry() []string {
+	out := make([]string, 0, len(m.e.activeEpf))
+	for _, ef := range m.e.activeEpf {
+		out = append(out, ef.Host)
+	}
+	return out
+}
+
+// ActiveEp lists the hosts of activeEp in order.
+func (m *VerifC15Mgr) ActiveEp() []string {
+	m.e.epLock.Lock()
+	defer m.e.epLock.Unlock()
+	out := make([]string, 0, len(m.e.activeEp))
+	for _, ep := range m.e.activeEp {
+		out = append(out, ep.Host)
+	}
+	return out
+}
+
+func (m *VerifC15Mgr) Selectors() (*roundrobin.RoundRobin, *consistenthash.ConsistentHash, *modhash.ModHash) {
+	m.e.epLock.Lock()
+	defer m.e.epLock.Unlock()
+	return m.e.activeEpRoundRobin, m.e.activeEpConHash, m.e.activeEpModHash
+}
+
+// Adapters is epList by host.
+func (m *VerifC15Mgr) Adapters() map[string]*AdapterProxy {
+	out := map[string]*AdapterProxy{}
+	m.e.epList.Range(func(k, v interface{}) bool {
+		a := v.(*AdapterProxy)
+		out[a.point.Host] = a
+		return true
+	})
+	return out
+}
